@@ -274,6 +274,7 @@ def run_case(ctx, P, stream, idx):
                         continue
                     try:
                         ast.parse(now[k])
+                        compile(now[k], files[k], "exec")  # (the compiler refuses more than the grammar does)
                     except SyntaxError as e:
                         P.deviation("sync.output-not-python|" + key_feats, "%s does not parse: %r" % (files[k], e),
                                     dict(w, target=k, after=now[k]))
